@@ -213,4 +213,16 @@ theorem invC_tr {cfg : Config} {s s' : State} {e : Event} (hi : InvC s) (h : Tr 
     · rename_i hu; subst hu; exact .inr ⟨rfl, rfl, rfl, rfl, rfl⟩
     · exact .inl rfl
 
+theorem invC_reachable {cfg : Config} {s : State} (h : Reachable cfg s) : InvC s :=
+  reachable_induct (P := InvC) invC_init (fun _ _ _ hi htr => invC_tr hi htr) s h
+
+/-- What an accepted `ret` of a cv wait says about the returning thread. -/
+theorem retWait_accepted {cfg : Config} {s s' : State} {t : Tid} {res : Outcome}
+    (hs : step cfg s (.retWait t res) = .ok s') :
+    ((s.thr t).loc = .wRet ∨ (s.thr t).loc = .wRelocking) ∧ res = (s.thr t).out := by
+  simp only [step] at hs
+  obtain ⟨hok, _⟩ := stepRet_ok hs
+  simpa using hok
+
+
 end NsyncVerif.Cv
